@@ -579,7 +579,11 @@ class DimensionValue(Value):
             if '.' in v:
                 val = float(sign + v)
             else:
-                val = int(sign + v)
+                try:
+                    val = int(sign + v)
+                except ValueError:
+                    # longer than the interpreter's limit for integer strings
+                    val = float(sign + v)
             try:
                 toolarge = float(val) in (float('inf'), float('-inf'))
             except OverflowError:
